@@ -38,8 +38,40 @@ pub fn search(rng: &mut Rng, budget: u64, fails: &mut Vec<Failure>) {
                 cmp!("subtract", showz(z.subtract(&du, None)), showz(z.subtract_with_provider(&du, None, &provider)));
             }
             cmp!("hours_in_day", z.hours_in_day(), z.hours_in_day_with_provider(&provider));
+            // the overflow option reaches the core unchanged (month arithmetic from a 31st, constrain / reject / default)
+            for (mo, ov) in [(1i64, None), (1, Some(temporal_rs::options::ArithmeticOverflow::Reject)), (1, Some(temporal_rs::options::ArithmeticOverflow::Constrain)), (-1, Some(temporal_rs::options::ArithmeticOverflow::Reject)), (13, Some(temporal_rs::options::ArithmeticOverflow::Reject))] {
+                use temporal_rs::primitive::FiniteF64 as F; let z0 = F::default();
+                let Ok(du) = temporal_rs::Duration::new(z0, F::try_from(mo as f64).unwrap(), z0, z0, z0, z0, z0, z0, z0, z0) else { continue };
+                for base in [1_612_094_400_000_000_000i128 /* 2021-01-31T12:00Z */, 1_617_192_000_000_000_000 /* 2021-03-31T12:00Z */, ns] {
+                    let Ok(zb) = ZonedDateTime::try_new(base, Calendar::default(), tz.clone()) else { continue };
+                    cmp!("add(overflow)", showz(zb.add(&du, ov)), showz(zb.add_with_provider(&du, ov, &provider)));
+                    cmp!("subtract(overflow)", showz(zb.subtract(&du, ov)), showz(zb.subtract_with_provider(&du, ov, &provider)));
+                }
+            }
             if fails.len() >= 5 { return; }
         }
+    }
+    // every calendar getter is wired to its own core accessor (around New Year the week-year differs from the year)
+    for (ns, tzs) in [(1_609_502_400_000_000_000i128, "UTC"), (1_735_646_400_000_000_000, "UTC"), (1_582_977_600_000_000_000, "America/New_York"), (1_701_308_952_000_000_000, "Asia/Tokyo")] {
+        let Ok(tz) = TimeZone::try_from_str(tzs) else { continue };
+        let Ok(z) = ZonedDateTime::try_new(ns, Calendar::default(), tz) else { continue };
+        macro_rules! cmp { ($name:literal, $a:expr, $b:expr) => {
+            match (catch_unwind(std::panic::AssertUnwindSafe(|| $a)), catch_unwind(std::panic::AssertUnwindSafe(|| $b))) {
+                (Ok(Ok(a)), Ok(Ok(b))) => if a != b { fails.push(Failure { what: format!("ZonedDateTime::{} != {}_with_provider", $name, $name), input: format!("epoch_ns={ns} tz={tzs}"), expected: format!("{:?}", b), observed: format!("{:?}", a) }); },
+                (Ok(Err(_)), Ok(Err(_))) => {}
+                (Err(_), Err(_)) => {}
+                _ => fails.push(Failure { what: format!("ZonedDateTime::{} differs in outcome", $name), input: format!("epoch_ns={ns} tz={tzs}"), expected: "same outcome".into(), observed: "different".into() }),
+            } } }
+        cmp!("week_of_year", z.week_of_year(), z.week_of_year_with_provider(&provider));
+        cmp!("year_of_week", z.year_of_week(), z.year_of_week_with_provider(&provider));
+        cmp!("days_in_week", z.days_in_week(), z.days_in_week_with_provider(&provider));
+        cmp!("days_in_year", z.days_in_year(), z.days_in_year_with_provider(&provider));
+        cmp!("months_in_year", z.months_in_year(), z.months_in_year_with_provider(&provider));
+        cmp!("in_leap_year", z.in_leap_year(), z.in_leap_year_with_provider(&provider));
+        cmp!("month_code", z.month_code().map(|m| m.as_str().to_string()), z.month_code_with_provider(&provider).map(|m| m.as_str().to_string()));
+        cmp!("era", z.era().map(|e| e.map(|x| x.to_string())), z.era_with_provider(&provider).map(|e| e.map(|x| x.to_string())));
+        cmp!("era_year", z.era_year(), z.era_year_with_provider(&provider));
+        if fails.len() >= 5 { return; }
     }
     // strings through the convenience layer: every disambiguation and offset option reaches the core unchanged
     for text in ["2020-03-08T02:30[America/Los_Angeles]", "2020-11-01T01:30[America/Los_Angeles]", "2021-06-01T12:00[America/New_York]", "2020-11-01T01:30-08:00[America/Los_Angeles]", "2020-11-01T01:30-05:00[America/Los_Angeles]", "2020-03-08T02:30Z[America/Los_Angeles]"] {
